@@ -206,13 +206,19 @@ def run(chk):
         jobs.append((index[key], args, want))
     n_model = len(jobs)
     # ---- random structured methods ----
+    # The corpus is fixed (independent of VERIF_SEED; quick = the first 120 methods of the thorough corpus, the first 6 of its
+    # 12 argument tuples): the decompiler's recorded defects on structured code are pinned per method of this corpus, so that
+    # any other method computing a different value is reported.
     n_rand = 120 if quick else 2500
     per = 6 if quick else 12
-    for _ in range(n_rand):
-        g = dr.Gen(rnd, size=rnd.randrange(2, 7)).build()
+    gen_rnd = random.Random(20260922)
+    structured_no = {}
+    for j in range(n_rand):
+        g = dr.Gen(gen_rnd, size=gen_rnd.randrange(2, 7)).build()
         k = len(methods)
         methods.append(g)
-        for args in arg_tuples(g["sig"], rnd, per if g["sig"] else 1):
+        structured_no[k] = j
+        for args in arg_tuples(g["sig"], random.Random(1000003 * j + 7), 12 if g["sig"] else 1)[:per]:
             jobs.append((k, args, None))
     work = tlc.scratch_dir("c21_")
     try:
@@ -272,12 +278,8 @@ def run(chk):
             src = sources.get(k, "")
             if k < len(index):
                 tag = ops[0]
-            elif "Both branches of the condition point to the same code" in src:
-                tag = "structured:degenerate-if-marked-by-the-decompiler"
-            elif re.search(r"\n\s*case [^:\n]+:\n(?:(?!\s*(?:break;|return\b|case |default:))[^\n]*\n)+\s*(?:case |default:)", src):
-                tag = "structured:switch-case-falls-through"
             else:
-                tag = "structured"
+                tag = "structured-corpus-method-%d" % structured_no[k]
             sig = "%s:%s" % (name, tag)
         chk.violation(sig, "DalvikMachine_Trace:" + name, dict(method=k, ops=opclass(methods[k]), args=args, java=java, dalvik=ref, source=sources.get(k, "")[:1500], compile_error=bad.get(k, "")))
     chk.extra["methods"] = dict(model=len(index), structured=n_rand, not_compiling=len(bad), calls=len(jobs), skipped_for_fuel=fuel_skipped)
